@@ -167,6 +167,9 @@ func faultAt(c *fw.Case, h *roles.History, histFile string, hidx int, ref0 []ptr
 		faultedWO     = map[int]bool{}
 		diverged      bool
 		secondPending = inj.pair
+		// the call the second fault of a pair actually hit: write-outs differ in length, so "the same
+		// position of the next write-out" is in general another call than the first fault's
+		secondKind, secondDesc string
 	)
 	res := ptr.Run(argv(db), ptr.Options{Roots: []string{db}, Timeout: 120e9, Policy: func(e *ptr.Event) ptr.Decision {
 		if e.Sys == "marker" {
@@ -211,6 +214,7 @@ func faultAt(c *fw.Case, h *roles.History, histFile string, hidx int, ref0 []ptr
 			secondPending = false
 			injected++
 			faultedWO[curWO] = true
+			secondKind, secondDesc = e.Kind(), e.String()
 			return ptr.Decision{Act: ptr.FailErrno, Errno: inj.errno}
 		}
 		return ptr.Decision{}
@@ -225,6 +229,12 @@ func faultAt(c *fw.Case, h *roles.History, histFile string, hidx int, ref0 []ptr
 	}
 	c.Count("fault_runs", 1)
 	c.Count("fault_at_"+ev.Kind(), 1)
+	// site of the fault(s) for signatures: a pair names both calls that failed
+	site := ev.Kind()
+	if secondKind != "" {
+		site += "+" + secondKind
+		desc += " (= " + secondDesc + ")"
+	}
 	switch ptr.FileClass(ev.Path) {
 	case "column":
 		if ev.Sys == "write" || ev.Sys == "pwrite64" {
@@ -243,17 +253,17 @@ func faultAt(c *fw.Case, h *roles.History, histFile string, hidx int, ref0 []ptr
 	}
 	c.Nontrivial(fmt.Sprintf("%d/%d/%d/%v", hidx, inj.at, int(inj.errno), inj.pair))
 	if res.ExitCode != 0 {
-		c.Violatef("writer_crashed|"+ev.Kind(), "%s: the writer process exited with %d", desc, res.ExitCode)
+		c.Violatef("writer_crashed|"+site, "%s: the writer process exited with %d", desc, res.ExitCode)
 		return
 	}
 	okSet, errSet, _ := c04.ParseMarkers(res.MarkerLog)
 	if len(okSet)+len(errSet) != n {
-		c.Violatef("writer_incomplete|"+ev.Kind(), "%s: writer reported %d results for %d write-outs", desc, len(okSet)+len(errSet), n)
+		c.Violatef("writer_incomplete|"+site, "%s: writer reported %d results for %d write-outs", desc, len(okSet)+len(errSet), n)
 		return
 	}
 	for w := range errSet {
 		if !faultedWO[w] {
-			c.Violatef("later_write_failed|"+ev.Kind(), "%s: fault-free write-out %d failed after the fault cleared: %s", desc, w, errSet[w])
+			c.Violatef("later_write_failed|"+site, "%s: fault-free write-out %d failed after the fault cleared: %s", desc, w, errSet[w])
 			return
 		}
 	}
@@ -274,7 +284,7 @@ func faultAt(c *fw.Case, h *roles.History, histFile string, hidx int, ref0 []ptr
 			if okThen[w] {
 				outcome = "reported success"
 			}
-			c.Violatef("post_fault|"+mm[0].Clause+"|"+ev.Kind(), "%s: write-out %d %s; right afterwards the readers disagree with the write-outs reported ok %v: %s", desc, w, outcome, keys(okThen), mm[0].Detail)
+			c.Violatef("post_fault|"+mm[0].Clause+"|"+site, "%s: write-out %d %s; right afterwards the readers disagree with the write-outs reported ok %v: %s", desc, w, outcome, keys(okThen), mm[0].Detail)
 			return
 		}
 		c.Count("post_fault_snapshots", 1)
@@ -282,7 +292,7 @@ func faultAt(c *fw.Case, h *roles.History, histFile string, hidx int, ref0 []ptr
 	// final state: all write-outs reported ok
 	want := dbx.Expect(h.RefDBOf(func(x int) bool { return okSet[x] }))
 	if mm := dbx.Compare(want, dbx.Observe(db), false); len(mm) > 0 {
-		c.Violatef("final|"+mm[0].Clause+"|"+ev.Kind(), "%s: after the remaining fault-free write-outs the readers disagree with the write-outs reported ok %v (failed: %v): %s", desc, keys(okSet), errSet, mm[0].Detail)
+		c.Violatef("final|"+mm[0].Clause+"|"+site, "%s: after the remaining fault-free write-outs the readers disagree with the write-outs reported ok %v (failed: %v): %s", desc, keys(okSet), errSet, mm[0].Detail)
 	}
 }
 
